@@ -94,12 +94,13 @@ def judge(ctx, binary, cases):
             if not t:
                 v["soft"].append(("driver", mo))
             for key, val in t.items():
-                if key == "cmp":
+                if key in ("cmp", "robust"):
                     continue
                 if not good(key, val):
                     kind = val.split(":")[0].split("@")[0]
                     (v["bad"] if key in PROPERTY_KEYS else v["soft"]).append((key, kind))
             v["cmp"] = t.get("cmp", "")
+            v["robust"] = t.get("robust", "")
             verdicts[n] = v
     for c, v in zip(cases, verdicts):
         first = (v["bad"] or v["soft"] or [None])[0]
@@ -187,6 +188,8 @@ def account(ctx, c, v):
     ctx.stat("mode:exact" if c["exact"] else "mode:approx")
     if c.get("threads"):
         ctx.stat("omp_threads:%d" % c["threads"])
+    if v.get("robust"):
+        ctx.stat("tolerance-proof-extremality-certificate:" + v["robust"])
     if v.get("cmp"):
         for part in v["cmp"].split(","):
             k, n = part.split(":")
